@@ -145,7 +145,20 @@ def run(ctx):
     corpus = []
     its = items.all_items()
     rng.shuffle(its)
-    for it in its[: ctx.pick(700, len(its))]:
+    # quick tier: at least two items of every (family, generics class, attribute option) first - state that leaks between
+    # expansions shows only when two items of the same kind meet in one process -, then a random fill
+    budget = ctx.pick(700, len(its))
+    seen, first, rest = {}, [], []
+    for it in its:
+        k = (it.dims[0], it.dims[2], it.dims[4])
+        if seen.get(k, 0) < 2:
+            seen[k] = seen.get(k, 0) + 1
+            first.append(it)
+        else:
+            rest.append(it)
+    chosen_items = first + rest[: max(0, budget - len(first))]
+    rng.shuffle(chosen_items)
+    for it in chosen_items:
         for d in it.derives:
             corpus.append((d, it.src.replace("@N@", "S%d" % len(corpus)), False))
     for d, src in hashed_inputs(rng, ctx.pick(600, 12000)):
